@@ -238,9 +238,35 @@ let guard ln got f =
   let expected = try f () with Miss q -> "ORACLEMISS:" ^ q in
   report_case ln ~expected ~got
 
-let () =
-  iter_lines stdin (fun ln l ->
-    match split_on '\t' l with
+(* concurrent cases: k params texts served by one handler value; the model answers them with
+   `serve` (each by itself) and the observed SET of outcomes per text has to be that one answer *)
+let merged_tables (oracles : string list) : otab =
+  let t = { zero = None; dec = []; elt = []; zelt = [] } in
+  List.iter (fun o ->
+      let u = parse_oracle o in
+      (match u.zero with Some z -> t.zero <- Some z | None -> ());
+      t.dec <- u.dec @ t.dec; t.elt <- u.elt @ t.elt; t.zelt <- u.zelt @ t.zelt) oracles;
+  t
+
+let conc_expected fi ret views oracles =
+  let t = merged_tables (split_on '!' oracles) in
+  let ps = List.map parse_view (split_on '!' views) in
+  String.concat "!" (List.map (outcome_string fi ret) (H.serve (decode_of t) (zero_of t) fi ps))
+
+let rec handle ln (flds : string list) =
+    match flds with
+    | "Ws" :: _gid :: rest -> handle ln ("W" :: rest)
+    | "Ps" :: _gid :: rest -> handle ln ("P" :: rest)
+    | ["Wc"; fn; opts; ret; _g; _iters; _procs; _raws; views; oracles; obs] ->
+      guard ln obs (fun () ->
+        match H.check (parse_fn fn) with
+        | H.Err e -> "err:" ^ err_class e
+        | H.Ok fi0 -> conc_expected (apply_opts opts fi0) ret views oracles)
+    | ["Pc"; fn; names; opts; ret; _g; _iters; _procs; _raws; views; oracles; obs] ->
+      guard ln obs (fun () ->
+        match H.positional (parse_fn fn) (names_of_field names) with
+        | H.Err e -> "err:" ^ err_class e
+        | H.Ok fi0 -> conc_expected (apply_opts opts fi0) ret views oracles)
     | ["K"; fn; obs] ->
       guard ln obs (fun () ->
         match H.check (parse_fn fn) with
@@ -318,5 +344,8 @@ let () =
             then obs else "0|" ^ show_keyed o' ^ "|or-another-admissible-state"
           | _ -> "0|" ^ show_keyed o'
         end)
-    | _ -> Printf.printf "BADLINE\t%d\n" ln);
+    | _ -> Printf.printf "BADLINE\t%d\n" ln
+
+let () =
+  iter_lines stdin (fun ln l -> handle ln (split_on '\t' l));
   finish ()
